@@ -207,6 +207,23 @@ fn run<C: CI>(ctx: &mut Ctx) {
         }
     });
 
+    ctx.group(&format!("{name}/huge"), |ctx| {
+        // texts of 2^10 .. 2^16 symbols and 65 .. 2049 machine words, random and structured contents (long runs of
+        // one symbol, periodic blocks, half-alphabet blocks): block-wise parsers and run-length fast paths
+        for (k, n) in huge_lengths(ctx, a.bits).into_iter().enumerate() {
+            let codes = structured_codes(&mut ctx.rng, a, n, k);
+            let v: Vec<u8> = a.text(&codes).into_bytes();
+            judge::<C>(ctx, &v, "valid-huge");
+            if k % 3 == 0 && !bad.is_empty() {
+                // one offending byte in the last block / at a block seam
+                let mut w = v.clone();
+                let at = match k % 4 { 0 => n - 1, 1 => n - n % 4096 - usize::from(n % 4096 == 0).min(n), 2 => (n / 4096) * 4096 / 2, _ => n / 2 + 1 }.min(n - 1);
+                w[at] = *ctx.rng.pick(&bad);
+                judge::<C>(ctx, &w, "bad-byte-huge");
+            }
+        }
+    });
+
     ctx.group(&format!("{name}/injected-bad-bytes"), |ctx| {
         let rounds = ctx.n(3000, 80000, 6);
         let lens = boundary_lengths(a.bits, 3);
